@@ -167,13 +167,15 @@ ChooseOpts ==
 
 Built == b.stage = "done"
 
+(* the solver machine on the built input (named so that TLC's coverage report lists them) *)
+DoConstruct  == Built /\ Construct /\ UNCHANGED <<b, style, block>>
+DoBeginSolve == Built /\ ExportMode = "run" /\ nruns = 0 /\ BeginSolve /\ UNCHANGED <<b, style, block>>
+DoSolveStep  == SolveStep /\ UNCHANGED <<b, style, block>>
+DoEndSolve   == EndSolve /\ UNCHANGED <<b, style, block>>
+DoBFRun      == Built /\ ExportMode = "run" /\ nruns = 0 /\ BFRun /\ UNCHANGED <<b, style, block>>
 Next ==
     \/ AddStudent \/ AddProject \/ AddLecturer \/ ChooseSided \/ AddList \/ AddCrit \/ EndCrits \/ ChooseOpts
-    \/ (Built /\ Construct /\ UNCHANGED <<b, style, block>>)
-    \/ (Built /\ ExportMode = "run" /\ nruns = 0 /\ BeginSolve /\ UNCHANGED <<b, style, block>>)
-    \/ (SolveStep /\ UNCHANGED <<b, style, block>>)
-    \/ (EndSolve /\ UNCHANGED <<b, style, block>>)
-    \/ (Built /\ ExportMode = "run" /\ nruns = 0 /\ BFRun /\ UNCHANGED <<b, style, block>>)
+    \/ DoConstruct \/ DoBeginSolve \/ DoSolveStep \/ DoEndSolve \/ DoBFRun
 Spec == Init /\ [][Next]_vars
 
 -----------------------------------------------------------------------------
